@@ -11,4 +11,5 @@ INVARIANT Capacity
 INVARIANT OwnPathShape
 INVARIANT GeneratedIdInBucket
 INVARIANT ClosestExact
+INVARIANT FirstDiffAgree
 PROPERTY SplitOnlyOwnPath
